@@ -973,6 +973,8 @@ class ApplyMask:
         b = state.pool[y]
         bl = b.legs[leaves(b.tree[j])[0]]
         ts = list(bl.tD.keys())
+        if not ts:
+            raise Skip()       # a leg without sectors (entirely empty tensor)
         # mask sectors: a drawn subset of the leg's sectors (possibly with one foreign sector)
         keep = [t for t in ts if (not chance(d, 1, 5))] or ts[:1]
         bits = [[int((not chance(d, 1, 4))) for _ in range(bl.tD[t])] for t in keep]
@@ -1277,6 +1279,8 @@ def draw_apply(state, step):
                 state.yp.append(yi)
             return step
         if not (isinstance(r, tuple) and r[0] == 'num'):
+            if step['op'] == 'remove_leg' and isinstance(y, yastn.Tensor) and len(state.yp[step['x']].get_blocks_charge()) == 0:
+                r.n = tuple(y.n)   # (as in execute_program: the charge carried by a leg of an entirely empty tensor is not observable)
             state.yp.append(y)
     elif isinstance(r, tuple) and r[0] == 'rebase':
         raise RuntimeError('re-based operations need live drawing')
@@ -1583,6 +1587,11 @@ def execute_program(prog, on_step=None, observers=True, config=None):
             m.n = tuple(y.n)   # the charge carried by a leg of an entirely empty tensor is not observable
         if step['op'] == 'scalar' and step.get('f') == 'exp':
             m = m.with_E(m.E * stored_mask(yp[step['x']], state.pool[step['x']], config))
+        if step['op'] == 'scalar' and step.get('f') == 'sqrt' and state.pool[step['x']].cplx and m.E is not None:
+            # the branch of sqrt on the negative real axis depends on the sign of a zero imaginary part (-(3+0j) = -3-0j but (-1)*(3+0j) = -3+0j):
+            # the reference is NumPy's sqrt of the dense operand yastn itself holds
+            from .model import observe as _obs
+            m = m.with_E(np.sqrt(_obs(yp[step['x']], state.pool[step['x']], config).astype(np.complex128)))
         if m.E is not None and m.E.size and np.max(np.abs(m.E)) > 2.0 ** 48:
             exact = False
         try:
